@@ -234,7 +234,7 @@ def run(tier, t0):
 
     def many(func, args, nproc=None):
         out = [None] * len(args)
-        for i, res in common.fresh_map(func, args, nproc, timeout=900):
+        for i, res in common.fresh_map(func, args, nproc, timeout=3600):
             if isinstance(res, Exception):
                 raise res
             out[i] = res
@@ -334,7 +334,7 @@ def run(tier, t0):
     # successor states only need an identity where they can be extended (histories inside the depth-3 sub-menu) - hashing is the expensive part
     tasks = [([by_name[h[0]]], menu2, expected, (subnames if h[0] in subnames else set()) if tier == 'quick' else None) for h in lvl1_hist if h[0] in in_menu2]
     frontier2 = []
-    for i, res in common.fresh_map(history.expand, tasks, timeout=900):        # streamed: results are large, never hold them all
+    for i, res in common.fresh_map(history.expand, tasks, timeout=3600):        # streamed: results are large, never hold them all
         if isinstance(res, Exception):
             raise res
         frontier2 += record([tasks[i][0][0][0]], menu2, res)
@@ -342,7 +342,7 @@ def run(tier, t0):
     acc.strata['depth2_histories_expanded'] = len(tasks)
     phase('depth2')
     tasks3 = [([by_name[n] for n in h], sub, expected) for h in frontier2 if all(n in subnames for n in h)]
-    for i, res in common.fresh_map(history.expand, tasks3, timeout=900):
+    for i, res in common.fresh_map(history.expand, tasks3, timeout=3600):
         if isinstance(res, Exception):
             raise res
         record([e[0] for e in tasks3[i][0]], sub, res)
